@@ -188,6 +188,8 @@ impl FailKind {
             "T" => FailKind::Io(io::ErrorKind::TimedOut),
             "O" => FailKind::Io(io::ErrorKind::Other),
             "P" => FailKind::Io(io::ErrorKind::PermissionDenied),
+            "X" => FailKind::Io(io::ErrorKind::Unsupported),
+            "F" => FailKind::Io(io::ErrorKind::NotFound),
             _ => panic!("bad failure kind"),
         }
     }
@@ -207,39 +209,47 @@ impl FailKind {
 pub struct FSettings {
     pub inner: PortSettings,
     pub fail_baud: Option<FailKind>,
+    /// the device cannot express its current mode in the portable settings type: the getter of a field returns None
+    /// until that field has been set (as real back ends do for split speeds, odd character sizes, ...)
+    pub opaque: [bool; 5],
 }
 impl SerialPortSettings for FSettings {
     fn baud_rate(&self) -> Option<BaudRate> {
-        self.inner.baud_rate()
+        if self.opaque[0] { None } else { self.inner.baud_rate() }
     }
     fn char_size(&self) -> Option<CharSize> {
-        self.inner.char_size()
+        if self.opaque[1] { None } else { self.inner.char_size() }
     }
     fn parity(&self) -> Option<Parity> {
-        self.inner.parity()
+        if self.opaque[2] { None } else { self.inner.parity() }
     }
     fn stop_bits(&self) -> Option<StopBits> {
-        self.inner.stop_bits()
+        if self.opaque[3] { None } else { self.inner.stop_bits() }
     }
     fn flow_control(&self) -> Option<FlowControl> {
-        self.inner.flow_control()
+        if self.opaque[4] { None } else { self.inner.flow_control() }
     }
     fn set_baud_rate(&mut self, baud_rate: BaudRate) -> serial_core::Result<()> {
         if let Some(k) = self.fail_baud {
             return Err(k.error());
         }
+        self.opaque[0] = false;
         self.inner.set_baud_rate(baud_rate)
     }
     fn set_char_size(&mut self, char_size: CharSize) {
+        self.opaque[1] = false;
         self.inner.set_char_size(char_size)
     }
     fn set_parity(&mut self, parity: Parity) {
+        self.opaque[2] = false;
         self.inner.set_parity(parity)
     }
     fn set_stop_bits(&mut self, stop_bits: StopBits) {
+        self.opaque[3] = false;
         self.inner.set_stop_bits(stop_bits)
     }
     fn set_flow_control(&mut self, flow_control: FlowControl) {
+        self.opaque[4] = false;
         self.inner.set_flow_control(flow_control)
     }
 }
@@ -255,6 +265,8 @@ pub struct TestPort {
     pub config_calls: Vec<&'static str>,
     /// flush() reports an error (the library itself never needs to flush: every write goes straight to the port)
     pub flush_fails: bool,
+    /// which of the five settings the device cannot report (see FSettings::opaque)
+    pub opaque: [bool; 5],
 }
 impl TestPort {
     pub fn new(rd: SchedReader, wr: SchedWriter) -> Self {
@@ -273,6 +285,7 @@ impl TestPort {
             timeout: None,
             config_calls: vec![],
             flush_fails: false,
+            opaque: [false; 5],
         }
     }
 }
@@ -301,14 +314,16 @@ impl SerialDevice for TestPort {
         if self.fail == FailAt::Read {
             return Err(self.fail_kind.error());
         }
-        Ok(FSettings { inner: self.settings, fail_baud: if self.fail == FailAt::Baud { Some(self.fail_kind) } else { None } })
+        Ok(FSettings { inner: self.settings, fail_baud: if self.fail == FailAt::Baud { Some(self.fail_kind) } else { None }, opaque: self.opaque })
     }
     fn write_settings(&mut self, settings: &FSettings) -> serial_core::Result<()> {
         self.config_calls.push("write_settings");
         if self.fail == FailAt::Write {
             return Err(self.fail_kind.error());
         }
+        // a field the caller never set stays whatever the device had
         self.settings = settings.inner;
+        self.opaque = settings.opaque;
         Ok(())
     }
     fn timeout(&self) -> Duration {
@@ -828,6 +843,9 @@ pub fn eval_io_case(t: &[&str]) -> Option<String> {
             Some(format!("{}# {} # inbox={}", out, pages.join(";"), hex_of_bytes(&inbox)))
         }
         "PT" => {
+            // a leading '?' on a setting token: the device cannot report that field until it has been set
+            let opaque: Vec<bool> = (1..6).map(|i| t[i].starts_with('?')).collect();
+            let t: Vec<&str> = t.iter().enumerate().map(|(i, s)| if (1..6).contains(&i) { s.trim_start_matches('?') } else { *s }).collect();
             let baud = if t[1].starts_with('O') { BaudRate::BaudOther(t[1][1..].parse().unwrap()) } else { BAUDS[t[1].parse::<usize>().unwrap()] };
             let cs = match t[2] {
                 "5" => CharSize::Bits5,
@@ -858,10 +876,14 @@ pub fn eval_io_case(t: &[&str]) -> Option<String> {
             let mut port = TestPort::new(SchedReader::new(vec![], vec![]), SchedWriter::new(vec![]));
             port.settings = PortSettings { baud_rate: baud, char_size: cs, parity: par, stop_bits: stop, flow_control: flow };
             port.fail = fail;
+            port.opaque = [opaque[0], opaque[1], opaque[2], opaque[3], opaque[4]];
             port.fail_kind = FailKind::of_str(fkind);
             let want_kind = port.fail_kind.kind();
             let ctor: Vec<&str> = t[7].split('.').collect();
             let show = |p: &TestPort| {
+                if p.opaque.iter().any(|o| *o) {
+                    return "OK but-a-setting-was-never-set".to_string();
+                }
                 format!(
                     "OK {} {}",
                     str_settings(&p.settings),
